@@ -34,11 +34,6 @@ package wallet
 //@   trusted
 //@   writes nothing
 
-// Assumed: the chain backend answers header queries without touching wallet memory.
-//@ iface chain.Interface.GetBlockHeader(c, hash) (header, err)
-//@   trusted
-//@   writes nothing
-
 // disconnectBlock: ignored unless the wallet is synced and the notified block
 // is the one the wallet remembers at that height; otherwise the synced-to stamp
 // becomes the parent (height-1 with the hash remembered for it) and that
@@ -55,5 +50,7 @@ package wallet
 //@       ==> TIP_H(w) == b.Height - 1
 //@   ensures tip_is_parent_hash: err == nil && old(w.chainClientSynced) && b.Height <= old(TIP_H(w)) && old(A_HAS_HASH(b.Height)) && old(A_HASH_AT(b.Height)) == bytes(b.Hash)
 //@       ==> TIP_HASH(w) == old(A_HASH_AT(b.Height - 1))
+//@   ensures parent_known: err == nil && old(w.chainClientSynced) && b.Height <= old(TIP_H(w)) && old(A_HAS_HASH(b.Height)) && old(A_HASH_AT(b.Height)) == bytes(b.Hash)
+//@       ==> old(A_HAS_HASH(b.Height - 1)) && A_HAS_HASH(b.Height - 1)
 //@   ensures parent_hash_kept: err == nil && old(w.chainClientSynced) && b.Height <= old(TIP_H(w)) && old(A_HAS_HASH(b.Height)) && old(A_HASH_AT(b.Height)) == bytes(b.Hash)
-//@       ==> A_HAS_HASH(b.Height - 1) && A_HASH_AT(b.Height - 1) == old(A_HASH_AT(b.Height - 1))
+//@       ==> A_HASH_AT(b.Height - 1) == old(A_HASH_AT(b.Height - 1))
